@@ -94,7 +94,10 @@ impl Props {
                     if k.contains(ANY) {
                         continue;
                     }
-                    self.set(k.clone(), v.clone());
+                    let Some(v) = without_wildcards(v) else {
+                        continue;
+                    };
+                    self.set(k.clone(), v);
                 }
             }
         } else if let Value::Mapping(map) = base {
@@ -121,13 +124,27 @@ impl Props {
                 .filter_map(Value::as_str)
                 .filter(|k| k.starts_with(&key) && k[key.len()..].starts_with('.'))
             {
-                let Some(entry) = map.get(matching_key) else {
+                let Some(entry) = map.get(matching_key).and_then(without_wildcards) else {
                     continue;
                 };
                 let remaining = &matching_key[(key.len() + 1)..];
-                self.set(remaining.to_string(), entry.clone());
+                self.set(remaining.to_string(), entry);
             }
         }
+    }
+}
+
+/// Returns the value without the `<any>` subtrees created by [`compartmentalize`].
+/// Those are addressed to modules further down the tree, never to the
+/// module that is currently capturing. Returns `None` if nothing else remains.
+fn without_wildcards(value: &Value) -> Option<Value> {
+    match value {
+        Value::Mapping(map) if map.contains_key(ANY) => {
+            let mut map = map.clone();
+            map.remove(ANY);
+            (!map.is_empty()).then_some(Value::Mapping(map))
+        }
+        other => Some(other.clone()),
     }
 }
 
